@@ -5,7 +5,7 @@ id=$1; tier="${2:-quick}"; d=seeded/$id; out=seeded/RESULTS.md
 prop=$(python3 -c "import json;print(json.load(open('$d/meta.json'))['property'])")
 [ -n "$(git -C /repo status --porcelain)" ] && { echo "/repo dirty"; exit 2; }
 git -C /repo apply $PWD/$d/patch.diff || exit 2
-res=$(VERIF_STALL_S=30 bin/check $prop --tier $tier 2>&1); rc=$?
+res=$(bin/check $prop --tier $tier 2>&1); rc=$?
 git -C /repo checkout -- .
 sigs=$(echo "$res" | grep "^  $prop|" | sed 's/^  //' | head -4 | tr '\n' ';')
 row="| $id | $prop | bin/check $prop | $rc | $sigs |"
